@@ -105,6 +105,19 @@ class Ctx:
         return np.random.RandomState(h)
 
 
+def layouts(x):
+    """The same values in other memory layouts: Fortran order and a strided view into a larger buffer (arrays a caller may
+    legitimately pass: transposes, slices, columns of a matrix)."""
+    import numpy as np
+
+    if not isinstance(x, np.ndarray) or x.ndim == 0 or x.size <= 1:
+        return []
+    buf = np.zeros(tuple(2 * n for n in x.shape), dtype=x.dtype)
+    v = buf[tuple(slice(1, None, 2) for _ in x.shape)]
+    v[...] = x
+    return [("Fortran-ordered", np.asfortranarray(x)), ("strided", v)]
+
+
 def tree_hash():
     h = hashlib.sha256()
     for base in (os.path.join(REPO, "sigpy"), os.path.join(ROOT, "spec"), os.path.join(ROOT, "harness")):
